@@ -1610,7 +1610,7 @@ class QueryBuilder(Selectable, Term):  # type:ignore[misc]
             self._values.append(
                 [
                     value if isinstance(value, Term) else self.wrap_constant(value)
-                    for value in values
+                    for value in _in_stable_order(values)
                 ]
             )
 
